@@ -1,9 +1,14 @@
 """C07 header contradiction and fork-choice classification follow LIP-0014.
 TLC enumerates all header pairs over small field ranges, checks operational = declarative contradiction,
-symmetry, etc., and prints the truth tables; the harness evaluates the real functions on every row
-(and on uint32-range pairs through rank compression).  The chain-level rule (compare with the generator's
-newest header in the window) is validated by the LiskBFT trace (Contra events), and 'protocol-following
-generators are never flagged' is the invariant HonestNoContra of the fork-tree model."""
+symmetry, etc., and prints the truth tables (pairs; classification with boundary receive times; priority incl. the genesis
+rule); the harness evaluates the real functions on every row under several concretisations (generator address families,
+strictly increasing uint32 maps, a genesis tip) and on uint32-range pairs through rank compression.
+The chain-level rule (compare with the generator's newest header in the window) is validated by the LiskBFT trace (Contra
+events); RecvTime.tla scripts replayed under a moving wall clock offer valid, wrongly signed and CONTRADICTING blocks to the
+real Executer in the first / last second of their slots and probe Executer.Synced against the priority table; a slice of the
+honest network simulation of Net.tla checks on real nodes that validators whose node switched chains are not flagged;
+'protocol-following generators are never flagged' is also the invariant HonestNoContra of the fork-tree model (thorough)
+and a fact discharged by Apalache for all naturals."""
 import json, os
 import common
 from common import Inconclusive, finish, log
@@ -43,75 +48,141 @@ def apalache_facts(ctx):
     if res["control"]:
         raise Inconclusive("Apalache control (weakened comparison) was not refuted: the obligation is vacuous")
     return dict(apalache_unbounded_facts=["operational = declarative contradiction", "symmetry", "never across generators", "equal triples contradict",
-                                          "Better is a strict total preorder", "legitimate successor is Better", "honest generator never contradicts itself"],
+                                          "Better is a strict total preorder", "legitimate successor is Better", "honest generator never contradicts itself",
+                                          "a later header that claims less than the generator's own earlier height contradicts it",
+                                          "the genesis priority rule is monotone in the genesis height"],
                 apalache_control_refuted=True)
 
-def recvtime(ctx, prefix="recvtime"):
+def priority_table(ctx):
+    """TP rows of ForkChoice.tla (HasPriority incl. the genesis rule) as a file; used by cmd/c07 and by the Synced probes of cmd/recv"""
+    tp = ctx.path("tables_priority.txt")
+    if not os.path.exists(tp):
+        r = ctx.tlc("ForkChoice", "ForkChoice_priority", workers=4, timeout=900)
+        if r["violation"]:
+            raise Inconclusive("ForkChoice.tla property fails at spec level (priority): %s" % r["outpath"])
+        with open(tp, "w") as fh:
+            for line in r["out"].splitlines():
+                if line.startswith('<<"TP'):
+                    fh.write(line + "\n")
+    return tp
+
+# keys of the moving-clock replay that are about "a rejected block changes nothing" / restart / panic rather than about the
+# LIP-0014 classification: reported under C07 as long as no other check owns them, and available to C03 through
+# recvtime(ctx, prefix="...", keys=RECV_C03_KEYS)
+RECV_C03_KEYS = ("child:none-instead-of-accept", "child:other-instead-of-", "restart-fails", "panic",
+                 "contradicting-child:", "contradicting-comp:")
+
+def recvtime(ctx, prefix="recvtime", keys=None, tables=None):
     """RecvTime.tla: fork choice under a MOVING wall clock.  TLC checks the model (exhaustively for 3 slots / 5 steps) and
     generates scripts in simulation; cmd/recv replays them side by side on real nodes with a block time of a few seconds.
-    Returns coverage; violations are reported through ctx.violation under `prefix:...`."""
+    Returns coverage; violations are reported through ctx.violation under `prefix:...`.
+    keys: None = all, else a tuple of key prefixes (after 'recvtime:') the caller owns; tables: priority table for the
+    Executer.Synced probes (None = no probes)."""
     r = ctx.tlc("RecvTime", "RecvTime_exh", workers=4, timeout=600)
     if r["violation"]:
         raise Inconclusive("RecvTime.tla violates its own invariants: %s" % r["outpath"])
-    nsim = 260 if ctx.tier == "quick" else 1500
-    g = ctx.tlc("RecvTime", "RecvTime_sim", workers=1, timeout=600, simulate=nsim, depth=8, seed=ctx.seed)
+    quick = ctx.tier == "quick"
     scripts = []
     seen = set()
-    for d in ctx.dumps(g["out"]):
-        k = json.dumps(d, sort_keys=True)
-        if k not in seen:
-            seen.add(k); scripts.append(d)
-    if len(scripts) < 60:
-        raise Inconclusive("RecvTime simulation produced only %d scripts" % len(scripts))
-    scripts = scripts[:220 if ctx.tier == "quick" else 900]
+    # general scripts (4 validators) and directed ones that contain a CONTRADICTING block (3 validators: the generator of a
+    # slot comes round again inside the 4 slots of a scenario)
+    for cfg, nsim, cap, floor in (("RecvTime_sim", 400 if quick else 2000, 170 if quick else 700, 60),
+                                  ("RecvTime_lying", 500 if quick else 2500, 90 if quick else 400, 30)):
+        g = ctx.tlc("RecvTime", cfg, workers=1, timeout=600, simulate=nsim, depth=8, seed=ctx.seed)
+        if g["violation"]:
+            raise Inconclusive("RecvTime.tla violates its own invariants in simulation: %s" % g["outpath"])
+        n = nend = 0
+        for d in ctx.dumps(g["out"]):
+            k = json.dumps(d, sort_keys=True)
+            at_end = d["script"][0].get("pos") == "end"
+            # the window in the last second of a slot is narrow (680 ms): at most a third of the scripts go there
+            if k not in seen and n < cap and not (at_end and nend >= cap // 3):
+                seen.add(k); scripts.append(d); n += 1; nend += at_end
+        if n < floor:
+            raise Inconclusive("RecvTime simulation (%s) produced only %d scripts" % (cfg, n))
     sp = ctx.path("recv_scripts.jsonl")
     with open(sp, "w") as fh:
         for d in scripts:
             fh.write(json.dumps(d) + "\n")
     binp = ctx.go_build("./cmd/recv")
     res = None
-    for attempt in range(2):          # a run that lost its timing on a loaded machine is repeated once
+    vac = ("tie_breaks_performed", "competitors_refused_tip_in_time", "competitors_offered_after_a_rejected_child",
+           "contradicting_children_offered", "contradicting_competitors_offered", "contradicting_competitors_in_tie_break_window",
+           "blocks_offered_in_first_second_of_slot", "blocks_offered_in_last_second_of_slot", "tie_breaks_in_last_second")
+    floors = dict(blocks_offered_in_first_second_of_slot=40, blocks_offered_in_last_second_of_slot=40, tie_breaks_in_last_second=3,
+                  contradicting_children_offered=10, contradicting_competitors_offered=10, contradicting_competitors_in_tie_break_window=3)
+    def placed(res):
+        # scripts at the slot start have seconds of room: most of them must have kept their timing; for the ones in the last
+        # second the floors below decide
+        nstart = res["scripts"] - res.get("scripts_at_slot_end", 0)
+        return res.get("scripts_at_slot_start_completed", res["completed"]) >= 0.7 * nstart
+    def vacuous(res):
+        return [k for k in vac if res.get(k, 0) < floors.get(k, 5)]
+    for attempt in range(3):          # a run that lost its timing on a loaded machine is repeated (twice at most)
         of = ctx.path("recv_%d.json" % attempt)
-        p = ctx.run([binp, sp, of, "4"], timeout=300)
+        p = ctx.run([binp, sp, of, "4"] + ([tables] if tables else []), timeout=300)
         if p.returncode != 0 or not os.path.exists(of):
-            if ctx.real_panic:
+            if getattr(ctx, "real_panic", None):
                 break
             raise Inconclusive("recv harness failed: " + p.stderr[-1500:])
         res = json.load(open(of))
-        if res["harness_errors"]:
+        res["violations"] = res.get("violations") or []
+        if res.get("harness_errors"):
             raise Inconclusive("recv harness: %s" % res["harness_errors"][:3])
-        if (res["violations"] or []) or res["completed"] >= 0.7 * res["scripts"]:
+        if res["violations"] or (placed(res) and not vacuous(res)):
             break
-        log("[recv] only %d of %d scripts kept their timing; retrying" % (res["completed"], res["scripts"]))
+        log("[recv] only %d of %d scripts kept their timing (below their floor: %s); retrying" % (res["completed"], res["scripts"], vacuous(res)))
     if res is None:
         return {}
-    log("[recv] scripts=%d completed=%d timing-inconclusive=%d steps=%d tie-breaks=%d refused(tip in time)=%d after-rejected-child=%d restarts=%d wall=%.0fs" % (
-        res["scripts"], res["completed"], res["timing_inconclusive"], res["steps"], res["tie_breaks_performed"],
-        res["competitors_refused_tip_in_time"], res["competitors_offered_after_a_rejected_child"], res["restarts"], res["wall_s"]))
-    for v in (res["violations"] or []):
-        ctx.violation(prefix + ":" + v["key"].split(":", 1)[1], v["what"], v.get("replay"))
-    if not (res["violations"] or []):
-        if res["completed"] < 0.7 * res["scripts"]:
+    log("[recv] scripts=%d (at slot end %d) completed=%d (at slot end %d) timing-inconclusive=%d steps=%d tie-breaks=%d (last second %d) refused(tip in time)=%d after-rejected-child=%d "
+        "contradicting child/competitor/competitor-in-tie-window=%d/%d/%d first/last-second=%d/%d restarts=%d synced-probes=%d (true %d, genesis %d, tip raised prevoted %d) max-batch=%dms setup=%dms wall=%.0fs" % (
+        res["scripts"], res.get("scripts_at_slot_end", 0), res["completed"], res.get("scripts_at_slot_end_completed", 0), res["timing_inconclusive"], res["steps"], res["tie_breaks_performed"],
+        res.get("tie_breaks_in_last_second", 0), res["competitors_refused_tip_in_time"], res["competitors_offered_after_a_rejected_child"],
+        res.get("contradicting_children_offered", 0), res.get("contradicting_competitors_offered", 0), res.get("contradicting_competitors_in_tie_break_window", 0),
+        res.get("blocks_offered_in_first_second_of_slot", 0), res.get("blocks_offered_in_last_second_of_slot", 0), res["restarts"],
+        res.get("synced_probes", 0), res.get("synced_probes_true", 0), res.get("synced_probes_genesis", 0), res.get("synced_probes_tip_raised_prevoted", 0),
+        res.get("max_batch_ms", 0), res.get("setup_ms", 0), res["wall_s"]))
+    reported = 0
+    for v in res["violations"]:
+        rest = v["key"].split(":", 1)[1]
+        if keys is not None and not rest.startswith(tuple(keys)):
+            log("[recv] note: a violation belonging to another property was observed: %s" % v["key"])
+            continue
+        reported += 1
+        ctx.violation(prefix + ":" + rest, v["what"], v.get("replay"))
+    if not res["violations"]:
+        if not placed(res):
             raise Inconclusive("moving-clock replay: only %d of %d scripts could be placed inside their slots (machine too loaded)" % (res["completed"], res["scripts"]))
-        if res["tie_breaks_performed"] < 5 or res["competitors_refused_tip_in_time"] < 5 or res["competitors_offered_after_a_rejected_child"] < 5:
-            raise Inconclusive("moving-clock replay is vacuous: %s" % {k: res[k] for k in ("tie_breaks_performed", "competitors_refused_tip_in_time", "competitors_offered_after_a_rejected_child")})
+        if vacuous(res):
+            raise Inconclusive("moving-clock replay is vacuous: %s" % {k: res.get(k, 0) for k in vacuous(res)})
+        if tables and (res.get("synced_probes", 0) < 1000 or res.get("synced_probes_genesis", 0) < 100 or res.get("synced_probes_tip_raised_prevoted", 0) < 50
+                       or not 0 < res.get("synced_probes_true", 0) < res.get("synced_probes", 0)):
+            raise Inconclusive("Synced probes are vacuous: %s" % {k: res.get(k, 0) for k in res if k.startswith("synced_")})
     return dict(moving_clock_scripts=res["completed"], moving_clock_steps=res["steps"], moving_clock_tie_breaks=res["tie_breaks_performed"],
                 moving_clock_competitors_refused_tip_in_time=res["competitors_refused_tip_in_time"],
-                moving_clock_competitors_after_rejected_child=res["competitors_offered_after_a_rejected_child"])
+                moving_clock_competitors_after_rejected_child=res["competitors_offered_after_a_rejected_child"],
+                moving_clock_contradicting_children=res.get("contradicting_children_offered", 0),
+                moving_clock_contradicting_competitors=res.get("contradicting_competitors_offered", 0),
+                moving_clock_contradicting_competitors_in_tie_break_window=res.get("contradicting_competitors_in_tie_break_window", 0),
+                moving_clock_blocks_in_first_second=res.get("blocks_offered_in_first_second_of_slot", 0),
+                moving_clock_blocks_in_last_second=res.get("blocks_offered_in_last_second_of_slot", 0),
+                moving_clock_tie_breaks_in_last_second=res.get("tie_breaks_in_last_second", 0),
+                synced_probes=res.get("synced_probes", 0), synced_probes_genesis=res.get("synced_probes_genesis", 0),
+                synced_probes_tip_raised_prevoted=res.get("synced_probes_tip_raised_prevoted", 0))
 
-def run(ctx):
-    from props import net as _net
-    _net.maybe_replay(ctx, LEVEL)
+def tables(ctx):
+    """truth tables of ForkChoice.tla on the real functions (cmd/c07)"""
     binp = ctx.go_build("./cmd/c07")
     tables = ctx.path("tables.txt")
     with open(tables, "w") as fh:
-        for mode in ("pairs", "classify", "priority"):
+        for mode in ("pairs", "classify"):
             r = ctx.tlc("ForkChoice", "ForkChoice_" + mode, workers=4, timeout=900)
             if r["violation"]:
                 raise Inconclusive("ForkChoice.tla property fails at spec level (%s): %s" % (mode, r["outpath"]))
             for line in r["out"].splitlines():
                 if line.startswith('<<"T'):
                     fh.write(line + "\n")
+        fh.write(open(priority_table(ctx)).read())
     of = ctx.path("c07.json")
     nrand = 200000 if ctx.tier == "quick" else 3000000
     p = ctx.run([binp, tables, of, str(nrand)], timeout=1800)
@@ -120,29 +191,130 @@ def run(ctx):
     res = json.load(open(of))
     for v in res.get("violations") or []:
         ctx.violation(v["key"], v["what"], v.get("replay"))
-    log("[c07] pairs=%d (contradicting %d) classify=%d %s priority=%d random=%d" % (
-        res["pairs"], res["pairs_contradicting"], res["classify_cases"], res["classes"], res["priority_rows"], res["random_pairs"]))
-    if not ctx.violations and (res["pairs"] < 1000 or res["classify_cases"] < 100 or len(res["classes"]) < 6):
-        raise Inconclusive("truth tables incomplete: vacuous")
+    log("[c07] pairs=%d (contradicting %d; through the API %d, equal fields / distinct ids %d, re-decoded copies %d; generator identities %s) classify=%d rows %s x embeddings %s "
+        "(duplicates of the tip with boundary receive times: %d rows; predicates compared %d; clock moved: repeated %d, unjudged %d) priority=%d rows (genesis header %d) x maps = %d random=%d of %d (API %d, with a uint32 boundary value %d)" % (
+        res["pairs"], res["pairs_contradicting"], res["api_pairs"], res["api_pairs_equal_fields_distinct_ids"], res["api_pairs_redecoded_copy"], res["generator_identity_families"],
+        res["classify_cases"], res["classes"], res["classify_embeddings"], res["classify_rows_duplicate_with_boundary_receive_times"],
+        res["predicates_compared_where_the_cascade_reaches_them"], res["classify_evaluations_repeated_clock_moved"], res["classify_evaluations_unjudged_clock_moved"],
+        res["priority_rows"], res["priority_rows_genesis_header"], res["priority_evaluations"], res["random_pairs"], res["random_pairs_requested"],
+        res["random_pairs_through_api"], res["random_pairs_with_uint32_boundary_value"]))
+    if not ctx.violations:
+        # non-vacuity: every table, every concretisation and the uint32 phase really ran
+        why = []
+        if res["pairs"] < 1000 or res["classify_cases"] < 100 or len(res["classes"]) < 6:
+            why.append("truth tables incomplete")
+        if res["random_pairs"] < 0.9 * nrand:
+            why.append("uint32 pairs: %d of %d requested (pair table narrower than fields 0..5?)" % (res["random_pairs"], nrand))
+        if res["random_pairs_through_api"] < 0.2 * nrand or res["random_pairs_with_uint32_boundary_value"] < 0.2 * nrand:
+            why.append("uint32 pairs through the API / with boundary values too few")
+        if len(res["generator_identity_families"]) < 8 or min(res["generator_identity_families"].values()) < 1000:
+            why.append("generator identity families not all exercised: %s" % res["generator_identity_families"])
+        if res["api_pairs_equal_fields_distinct_ids"] < 400 or res["api_pairs_redecoded_copy"] < 1000:
+            why.append("API pairs with equal fields / re-decoded copies too few")
+        if len(res["classify_embeddings"]) < 6 or min(res["classify_embeddings"].values()) < 500:
+            why.append("classification embeddings not all exercised: %s" % res["classify_embeddings"])
+        if len(res["classify_generator_identity_families"]) < 7 or min(res["classify_generator_identity_families"].values()) < 500:
+            why.append("classification rows: generator identity families not all exercised: %s" % res["classify_generator_identity_families"])
+        if res["classify_rows_duplicate_with_boundary_receive_times"] < 50 or res["classes"].get("tiebreak", 0) < 4:
+            why.append("receive-time boundary rows too few")
+        if res["classify_evaluations_unjudged_clock_moved"] > 0.02 * max(1, res["classify_evaluations"]):
+            why.append("too many classification rows lost to the moving clock")
+        if res["priority_rows_genesis_header"] < 100 or res["priority_evaluations"] < 5 * res["priority_rows"]:
+            why.append("priority rows (genesis header / uint32 maps) too few")
+        if why:
+            raise Inconclusive("truth tables vacuous: " + "; ".join(why))
+    return res
+
+# a validator's own node rejects the block it forges (flagged as contradicting), or a node does not end where the fork-choice
+# rule puts it (e.g. because honest validators' blocks on the better chain are flagged against stale information)
+C07_NET = ("net:forged-block-rejected", "net:tip-mismatch")
+# what the fixed sequences are kept for (tie break after a sync, double forging inside the tie-break window): where the acted-on
+# node ends up.  Finality, heights, temporary blocks, bans and agreement along these scripts belong to C01 / C04 / C05 / C19.
+C07_FIXED = ("net:tip-mismatch", "net:forged-block-rejected", "net:hang", "net:panic", "net:restart-fails", "net:observe")
+
+def fixed_sequences(ctx):
+    from props import net
+    nfixed, fv = net.run_fixed(ctx)
+    binp = None
+    for v in fv:
+        if not v["key"].startswith(C07_FIXED):
+            log("[c07] note: fixed sequence %s shows a violation that belongs to another property: %s" % (v["script"], v["key"]))
+            continue
+        if v["key"].startswith("net:hang") and isinstance(v.get("replay"), dict) and "config" in v["replay"]:
+            # a call that missed its deadline on a busy machine proves nothing by itself: run the script again, alone
+            binp = binp or ctx.go_build("./cmd/net")
+            again = False
+            for attempt in range(2):
+                sf = ctx.path("fixed_hang_%d.ndjson" % attempt); open(sf, "w").write(json.dumps(dict(script=v["replay"]["script"])) + "\n")
+                cf = ctx.path("fixed_hang_cfg.json"); json.dump(v["replay"]["config"], open(cf, "w"))
+                of = ctx.path("fixed_hang_res.json")
+                if os.path.exists(of):
+                    os.remove(of)
+                ctx.run([binp, sf, cf, of], timeout=600)
+                r1 = json.load(open(of)) if os.path.exists(of) else {}
+                if any(x["key"] == v["key"] for x in (r1.get("violations") or [])):
+                    again = True
+                    break
+            if not again:
+                log("[c07] a call exceeded its deadline once in %s (%s) and returned promptly when the script was re-run twice: not reported" % (v["script"], v["key"]))
+                continue
+        ctx.violation("forkchoice-sequence:" + v["key"], "%s: %s" % (v["script"], v["what"]), v.get("replay"))
+    return nfixed
+
+def honest_after_switch(ctx):
+    """'Headers of a generator that switches chains only by fork choice are never flagged', on real nodes: a slice of the
+    honest network simulation of Net.tla (validators forge on their own node's tip with honest generator information, nodes
+    switch chains by the fork-choice rule, restart).  The block a validator forges AFTER its node switched chains (blocks
+    deleted, BFT window rebuilt) must be accepted by its own node - IsHeaderContradictingChain in verifyBlock."""
+    from props import net
+    cov = net.run_net(ctx, lambda k: k.startswith(C07_NET), scripts_cap=80 if ctx.tier == "quick" else 600, parts=("honest_sim",))
+    # non-vacuity from the scripts themselves: forges by a node after that node replaced blocks of its chain
+    sf = ctx.path("net_sim_scripts.ndjson")
+    after = 0; scripts = 0
+    if os.path.exists(sf):
+        for line in open(sf):
+            d = json.loads(line); scripts += 1
+            switched = set()
+            for st in d["script"]:
+                if st.get("op") == "deliver" and (st.get("sync") == "switch" or st.get("branch") == "tiebreak"):
+                    switched.add(st.get("node"))
+                elif st.get("op") == "forge" and st.get("node") in switched:
+                    after += 1
+    log("[c07] honest network slice: %d scripts, %d forges, %d of them by a validator whose node had switched chains before" % (scripts, cov.get("net_forges", 0), after))
+    if not ctx.violations and (after < 20 or cov.get("net_forges", 0) < 100):
+        raise Inconclusive("honest network slice is vacuous: %d forges after a chain switch" % after)
+    return dict(honest_network_scripts=scripts, honest_network_forges=cov.get("net_forges", 0), honest_forges_after_chain_switch=after,
+                honest_network_sync_outcomes=cov.get("net_sync_outcomes"), honest_network_branches=cov.get("net_branches"))
+
+def run(ctx):
+    from props import net as _net
+    _net.maybe_replay(ctx, LEVEL)
+    res = tables(ctx)
     # unbounded: the same algebraic facts for ALL natural field values, discharged by Apalache (SMT); a control with one
     # comparison of the operational form weakened must produce a counterexample (the obligation is not vacuous)
     apa = apalache_facts(ctx)
     # classification depends on the receive times the node remembers across steps: fixed multi-node sequences
-    from props import net
-    nfixed, fv = net.run_fixed(ctx)
-    for v in fv:
-        ctx.violation("forkchoice-sequence:" + v["key"], "%s: %s" % (v["script"], v["what"]), v.get("replay"))
-    apa["fork_choice_sequences_replayed"] = nfixed
-    # ... and on WHEN the tip was received: RecvTime.tla replayed under a moving wall clock
-    apa.update(recvtime(ctx))
+    apa["fork_choice_sequences_replayed"] = fixed_sequences(ctx)
+    # ... and on WHEN the tip was received: RecvTime.tla replayed under a moving wall clock (+ contradicting blocks offered to
+    # the real Executer, Executer.Synced probed against the priority table)
+    apa.update(recvtime(ctx, tables=priority_table(ctx)))
+    # honest validators whose node switched chains are not flagged by their own node
+    if not ctx.violations:
+        apa.update(honest_after_switch(ctx))
     # chain-level rule through the real liskbft.Module: IsHeaderContradictingChain probes in the BFT trace
     b2 = ctx.go_build("./cmd/c02")
     chains = 300 if ctx.tier == "quick" else 3000
     tr = c02.validate(ctx, b2, chains, ctx.seed, "c07", cfg="LiskBFTTrace_contra")
     c02.report(ctx, tr, ctx.seed, chains, pid_kinds=("contra",))
-    if tr["mismatch"] and tr["mismatch"]["kind"] != "contra":
-        log("[c07] note: BFT trace diverges for a reason outside C07 (%s); contradiction probes before line %d were validated" % (
-            tr["mismatch"]["kind"], tr["mismatch"]["line"]))
+    if not ctx.violations:
+        if tr.get("ended_early"):
+            # the monitor stopped before the end of the trace for a reason that is not a contradiction probe (a header accepted
+            # by one side only, a TLC problem): the probes behind that line were not judged
+            raise Inconclusive("BFT trace validation ended at line %d of %d for a reason outside C07 (%s): the contradiction probes behind it are unjudged" % (
+                tr["accepted"], tr["events"], tr["ended_early"]))
+        m = tr["meta"]
+        if m.get("contra_true", 0) < 50 or m.get("contra_boundary_probes", 0) < 20:
+            raise Inconclusive("chain-level contradiction probes are vacuous: %d true, %d at the far end of the window" % (m.get("contra_true", 0), m.get("contra_boundary_probes", 0)))
     # protocol-following generators never contradict themselves: HonestNoContra on the fork-tree model
     hn = None
     if ctx.tier == "thorough":
@@ -150,13 +322,21 @@ def run(ctx):
         hn = ctx.tlc("MCLiskBFTTree", cfg, workers=16, timeout=1800)
         if hn["violation"]:
             raise Inconclusive("fork-tree model violates an invariant at spec level: %s" % hn["outpath"])
-    cov = dict(traces_validated_against_impl=res["pairs"] + res["classify_cases"] + res["priority_rows"] + tr["meta"].get("chains", 0),
+    cov = dict(traces_validated_against_impl=res["pairs"] + res["classify_evaluations"] + res["priority_evaluations"] + tr["meta"].get("chains", 0),
                samples=res["samples"][:2] + [dict(classes=res["classes"])],
                **apa, header_pairs=res["pairs"], header_pairs_contradicting=res["pairs_contradicting"],
-               classification_rows=res["classify_cases"], priority_rows=res["priority_rows"],
-               uint32_pairs=res["random_pairs"], uint32_pairs_contradicting=res["random_pairs_contradicting"],
-               chain_contradiction_probes_true=tr["meta"].get("contra_true", 0), exhaustive=True,
+               header_pairs_through_api=res["api_pairs"], header_pairs_equal_fields_distinct_ids=res["api_pairs_equal_fields_distinct_ids"],
+               header_pairs_redecoded_copy=res["api_pairs_redecoded_copy"], generator_identity_families=res["generator_identity_families"],
+               classification_rows=res["classify_cases"], classification_evaluations=res["classify_evaluations"],
+               classification_embeddings=res["classify_embeddings"], classification_generator_identity_families=res["classify_generator_identity_families"],
+               classification_rows_with_boundary_receive_times=res["classify_rows_duplicate_with_boundary_receive_times"],
+               priority_rows=res["priority_rows"], priority_rows_genesis_header=res["priority_rows_genesis_header"], priority_evaluations=res["priority_evaluations"],
+               uint32_pairs=res["random_pairs"], uint32_pairs_contradicting=res["random_pairs_contradicting"], uint32_pairs_through_api=res["random_pairs_through_api"],
+               chain_contradiction_probes_true=tr["meta"].get("contra_true", 0), chain_contradiction_boundary_probes=tr["meta"].get("contra_boundary_probes", 0),
+               exhaustive=True,
                rule="one TLC state per input tuple; every row of the printed truth tables is evaluated on the real function")
     finish(ctx, LEVEL, cov, assumptions=[
-        "uint32-range pairs are decided through rank compression (the specification of contradiction uses comparisons only)",
-        "fork-choice predicates are evaluated in the order of Executer.process(); the order inside process() itself is exercised by C03"])
+        "uint32-range values are decided through rank compression / strictly increasing maps (the specification uses comparisons and the successor of the tip height only)",
+        "generator identity is equality of the address bytes; the empty and the nil address are never compared with each other",
+        "fork-choice predicates are evaluated in the order of Executer.process(); a predicate is compared only where that cascade reaches it",
+        "the genesis rule of HeaderHasPriority / Synced (a version-0 header has priority over chains that do not reach above it) is transcribed from the SDK's behaviour; LIP-0014 itself is silent about it"])
